@@ -484,7 +484,8 @@ spif_dlinked_list_dup(spif_dlinked_list_t self)
         dest->prev = prev;
     }
     dest->next = (spif_dlinked_list_item_t) NULL;
-    tmp->tail = prev;
+    dest->prev = prev;
+    tmp->tail = dest;
     return tmp;
 }
 
@@ -509,7 +510,8 @@ spif_dlinked_list_vector_dup(spif_dlinked_list_t self)
         dest->prev = prev;
     }
     dest->next = (spif_dlinked_list_item_t) NULL;
-    tmp->tail = prev;
+    dest->prev = prev;
+    tmp->tail = dest;
     return tmp;
 }
 
@@ -534,7 +536,8 @@ spif_dlinked_list_map_dup(spif_dlinked_list_t self)
         dest->prev = prev;
     }
     dest->next = (spif_dlinked_list_item_t) NULL;
-    tmp->tail = prev;
+    dest->prev = prev;
+    tmp->tail = dest;
     return tmp;
 }
 
